@@ -1087,6 +1087,12 @@ class XsdElement(XsdComponent, ParticleMixin,
             xsd_type.content.raw_encode(element_data, validation, context)
             context.level -= 1
 
+        if self.fixed is not None and elem.text and elem.text != self.fixed and \
+                validation != 'skip' and xsd_type.has_simple_content() and \
+                not strictly_equal(xsd_type.text_decode(elem.text),
+                                   xsd_type.text_decode(self.fixed)):
+            errors.append(_("must have the fixed value %r") % self.fixed)
+
         if errors:
             for e in errors:
                 context.validation_error(validation, self, e, elem)
